@@ -193,7 +193,10 @@ def judge(prog, run, r):
         spec = run.ctx.spec.get(n)
         if spec is None:
             continue
-        rs = [e for e in ev if e[2] == n and e[1] == "R"]
+        # recur events of the lifecycle the call was made in only (a pool doer may live several lifecycles; its script
+        # starts again with each)
+        born = max([e[0] for e in ev if e[2] == n and e[1] == "E" and e[0] < c["seq0"]], default=-1)
+        rs = [e for e in ev if e[2] == n and e[1] == "R" and e[0] > born]
         if c.get("where") == "enter" or not any(e[0] < c["seq0"] for e in rs):
             continue      # removed itself from its enter context: no script step to continue from
         idx = max(i for i, e in enumerate(rs) if e[0] < c["seq0"])
